@@ -117,6 +117,9 @@ let run (path : String.t) =
         (* once the channel is closed the router only flushes and stops: a reply still buffered for a
            slow requestor is not part of what shutdown promises (C16 speaks of published messages) *)
         let was_closed = List.exists (function VClose _ -> true | _ -> false) evs in
+        (* a peer failed somewhere in this history: what is left undone afterwards is also harm done to the others (C08) *)
+        let had_failures = List.exists (function VSink (_, _, RErr) -> true | VStream (_, FErrR) -> true | _ -> false) evs in
+        let add v = (add v; if had_failures && (v = "c02" || v = "c10") then add "c08") in
         if fin = "quiesce" && not was_closed && not (obs_replies_delivered evs) then (add "c02"; add "c09"; why := "replies_delivered" :: !why);
         if not was_closed && not (obs_c10_final_ok evs) then (add "c10"; add "c09"; why := "c10_final" :: !why);
         if fin = "quiesce" && not was_closed && not (obs_requests_flushed evs) then (add "c02"; add "c09"; why := "requests_flushed" :: !why);
